@@ -113,6 +113,31 @@ def install_shadows(ns, clock=None):
                     mod.time = clock
 
 
+def install_shadows_clock(ns, clock):
+    """only the clock part of install_shadows (used by replays on the real flavour)"""
+    import types as _types
+    saved = []
+    for name, mod in vars(ns).items():
+        if isinstance(mod, _types.ModuleType) and '/solver/' in (getattr(mod, '__file__', '') or ''):
+            if hasattr(mod, 'datetime') or mod is ns.solver:
+                saved.append((mod, 'datetime', getattr(mod, 'datetime', None)))
+                mod.datetime = clock
+            if hasattr(mod, 'time') and isinstance(getattr(mod, 'time'), _types.ModuleType):
+                saved.append((mod, 'time', mod.time))
+                mod.time = clock
+
+    def restore():
+        for mod, attr, val in saved:
+            if val is None:
+                try:
+                    delattr(mod, attr)
+                except AttributeError:
+                    pass
+            else:
+                setattr(mod, attr, val)
+    return restore
+
+
 def sym_numerics(I, prefix='q'):
     """Fresh z3 numerics for a shape.  For na == 2 the file only carries the
     project (hospital) quotas; lecturer numerics are what the file denotes:
